@@ -56,6 +56,7 @@ TIERS = {
 WORKERS_PER_COMPILER = 3
 ERR_FLOOR = 1e-6          # numerical floor of a degree-2 distance near 0
 ERR_C = 2.0               # second-order slack c * d^2 (statement)
+MAX_CHOICE_RUNS = 48      # interpreter runs per case over pick_first / tie choices
 NAMED_FILTERS = [
     'always', 'less-than', 'less-than-multi', 'less-than-many',
     'less-than-respecting', 'less-than-respecting-multi',
@@ -622,11 +623,29 @@ class Interp:
     `become_bug` emulates PassData.become not copying the two mappings (used
     only to *name* the mechanism of a mismatch, never to accept it)."""
 
-    def __init__(self, n: int, pick: int = 0, become_bug: bool = False) -> None:
+    def __init__(self, n: int, choices: list[int] | None = None, become_bug: bool = False) -> None:
         self.n = n
-        self.pick = pick
+        self.choices = list(choices or [])
+        self.points: list[int] = []     # alternatives at each choice point met
         self.become_bug = become_bug
         self.counts: Counter[str] = Counter()
+
+    def choose(self, cands: list[int], results: list[dict[str, Any]]) -> int:
+        """Several admissible branches (pick_first, or less_than ties): a
+        choice point, resolved by the choice vector."""
+        uniq: list[int] = []
+        seen = set()
+        for i in cands:
+            key = json.dumps(results[i], sort_keys=True)
+            if key not in seen:
+                seen.add(key)
+                uniq.append(i)
+        if len(uniq) == 1:
+            return uniq[0]
+        k = len(self.points)
+        self.points.append(len(uniq))
+        c = self.choices[k] if k < len(self.choices) else 0
+        return uniq[c % len(uniq)]
 
     def pred(self, ident: int, st: dict[str, Any], log: list[Any]) -> bool:
         lst = st['script'].get(str(ident), [])
@@ -688,15 +707,21 @@ class Interp:
                 results.append(s)
                 sublogs.append(lg)
             log.append(['par', node['id'], sublogs])
+            idxs = list(range(len(results)))
             if node['pick_first']:
-                best = results[self.pick % len(results)]
+                sel = self.choose(idxs, results)
                 self.counts['par_pick_first'] += 1
             else:
-                best = results[0]
-                for r in results[1:]:
-                    if less(node['mode'], r['nops'], best['nops']):
-                        best = r
-                self.counts['par_selected_branch_%d' % results.index(best)] += 1
+                # the less_than-minimal branches (ties: any of them)
+                minimal = [
+                    i for i in idxs
+                    if not any(less(node['mode'], results[j]['nops'], results[i]['nops']) for j in idxs if j != i)
+                ]
+                sel = self.choose(minimal, results)
+                self.counts['par_selected_branch_%d' % sel] += 1
+                if len(minimal) < len(results):
+                    self.counts['par_with_strictly_worse_branch'] += 1
+            best = results[sel]
             self.adopt(st, best)
         else:
             raise ValueError(t)
@@ -806,10 +831,7 @@ def eval_control(case: dict[str, Any], cin: Any, cout: Any, data: Any, log: list
     n = cin.num_qudits
     tree = case['tree']
     paths, pf_ids = static_paths(tree)
-    has_pf = any(True for _ in pf_ids) or any(x['t'] == 'par' and x['pick_first'] for x in tree)
-    nbranches = 1
-    if has_pf:
-        nbranches = max([len(x['branches']) for x in walk(tree) if x['t'] == 'par' and x['pick_first']] or [1])
+    has_pf = any(x['t'] == 'par' and x['pick_first'] for x in walk(tree))
     obs = observed_state(data, n)
     real_all = [e for e in log if e[0] in ('pass', 'pred', 'cond')]
 
@@ -833,21 +855,33 @@ def eval_control(case: dict[str, Any], cin: Any, cout: Any, data: Any, log: list
                 )
         return None
 
-    best = None
-    for pick in range(nbranches):
-        st = init_state(case, n, cin.num_operations)
-        apply_model([a for a in case['init']], st, n)
-        it = Interp(n, pick)
-        lg: list[Any] = []
-        it.seq(tree, st, lg)
-        diff = compare_state(st, obs, cin, cout, data, n)
-        lm = log_mismatch(lg)
-        score = (len(diff), lm is not None)
-        if best is None or score < best[0]:
-            best = (score, diff, st, lm, it)
-        if score == (0, False):
-            break
-    assert best is not None
+    def explore(become_bug: bool) -> tuple[Any, bool]:
+        """Run the interpreter over the choice vectors (depth first) until one
+        agrees with the observation. Returns (best run, exhausted?)."""
+        stack: list[list[int]] = [[]]
+        best = None
+        tried = 0
+        while stack and tried < MAX_CHOICE_RUNS:
+            v = stack.pop()
+            tried += 1
+            st = init_state(case, n, cin.num_operations)
+            apply_model([a_ for a_ in case['init']], st, n)
+            it = Interp(n, v, become_bug)
+            lg: list[Any] = []
+            it.seq(tree, st, lg)
+            diff = compare_state(st, obs, cin, cout, data, n)
+            lm_ = None if become_bug else log_mismatch(lg)
+            score = (len(diff), lm_ is not None)
+            if best is None or score < best[0]:
+                best = (score, diff, st, lm_, it)
+            if score == (0, False):
+                return best, True
+            for i in range(len(v), len(it.points)):
+                for a_ in range(1, it.points[i]):
+                    stack.append(v + [0] * (i - len(v)) + [a_])
+        return best, not stack
+
+    best, exhausted = explore(False)
     _, diff, st, lm, it = best
     for k, v in it.counts.items():
         cnt[k] += v
@@ -855,16 +889,13 @@ def eval_control(case: dict[str, Any], cin: Any, cout: Any, data: Any, log: list
     cnt['side_channel_events'] += len(real_all)
     cnt['side_channel_checks'] += 1
     info = {'trace_len': len(st['trace']), 'fields_differing': diff, 'style': case['style']}
+    if (diff or lm is not None) and not exhausted:
+        cnt['ambiguous_choice_space_not_exhausted'] += 1
+        return w, cnt, info
     if diff:
         # name the mechanism: does "become does not copy the mappings" explain it exactly?
-        explained = False
-        for pk in range(nbranches):
-            st2 = init_state(case, n, cin.num_operations)
-            apply_model([a for a in case['init']], st2, n)
-            Interp(n, pk, become_bug=True).seq(tree, st2, [])
-            if not compare_state(st2, obs, cin, cout, data, n):
-                explained = True
-                break
+        b2, _ = explore(True)
+        explained = b2[0][0] == 0
         if explained and set(diff) <= set(MAPPINGS):
             where = {'unit_dtd': 'DoThenDecide_rejected_keeps_branch_mappings', 'unit_par': 'ParallelDo_selected_branch_mappings_lost'}.get(case['style'], 'nested')
             kind = 'control:become_omits_mappings:' + where
@@ -930,6 +961,12 @@ def run_one(comp: Any, case: dict[str, Any], tmpdir: str, watchdog: int) -> dict
     except RuntimeError as e:
         raised = remote_error(e)
         res['rebuild'] = True
+        if 'Traceback' not in raised['text']:
+            # no remote traceback: the connection to the server broke (seen
+            # when a loaded machine delays worker start-up); not a verdict
+            res['status'] = 'infrastructure'
+            res['err'] = '%r caused by %r' % (e, e.__cause__)
+            return res
     finally:
         signal.alarm(0)
         signal.signal(signal.SIGALRM, old)
@@ -993,11 +1030,18 @@ def run_batch(arg: tuple[int, str, list[tuple[str, int]]]) -> list[dict[str, Any
             if comp is None:
                 comp = wl.safe_compiler(WORKERS_PER_COMPILER)
             t0 = time.monotonic()
-            try:
-                r = run_one(comp, case, tmpdir, wd)
-            except Exception as e:  # harness failure: never a verdict
-                r = {'w': [], 'c': {}, 'info': {}, 'status': 'harness_error', 'rebuild': True,
-                     'err': '%s: %s @ %s' % (type(e).__name__, str(e)[:200], core.short_tb(e))}
+            for attempt in range(3):
+                if comp is None:
+                    comp = wl.safe_compiler(WORKERS_PER_COMPILER)
+                try:
+                    r = run_one(comp, case, tmpdir, wd)
+                except Exception as e:  # harness failure: never a verdict
+                    r = {'w': [], 'c': {}, 'info': {}, 'status': 'harness_error', 'rebuild': True,
+                         'err': '%s: %s @ %s' % (type(e).__name__, str(e)[:200], core.short_tb(e))}
+                if r['status'] != 'infrastructure':
+                    break
+                wl.close_compiler(comp)
+                comp = None
             r['wall'] = time.monotonic() - t0
             if r['rebuild']:
                 wl.close_compiler(comp)
@@ -1022,6 +1066,9 @@ def merge(run: core.Run, r: dict[str, Any]) -> None:
     m = r['meta']
     if r['status'] == 'harness_error':
         run.inconclusive_because('harness error in %s case %d: %s' % (m['part'], m['idx'], r.get('err')))
+        return
+    if r['status'] == 'infrastructure':
+        run.inconclusive_because('runtime connection broke three times in %s case %d: %s' % (m['part'], m['idx'], r.get('err')))
         return
     if r['status'] == 'timeout':
         run.count('timeout:' + m['part'])
